@@ -37,8 +37,20 @@ type tcase struct {
 	Out [][]string `json:"out"`
 }
 
+// mhVariant selects how the model's multihash names become bytes (set per case): 0 = sha2-256 (34 bytes), 1 = identity
+// multihashes of 100 bytes that share their first 92 bytes and differ only in the tail, 2 = sha2-512 (66 bytes).
+var mhVariant int
+
 func mhOf(name string) multihash.Multihash {
-	mh, _ := multihash.Sum([]byte("verif-c12-"+name), multihash.SHA2_256, -1)
+	var mh multihash.Multihash
+	switch mhVariant {
+	case 1:
+		mh, _ = multihash.Sum(append(bytes.Repeat([]byte("verif-c12-long-"), 6), []byte(fmt.Sprintf("%-10s", name))...), multihash.IDENTITY, -1)
+	case 2:
+		mh, _ = multihash.Sum([]byte("verif-c12-"+name), multihash.SHA2_512, -1)
+	default:
+		mh, _ = multihash.Sum([]byte("verif-c12-"+name), multihash.SHA2_256, -1)
+	}
 	return mh
 }
 
@@ -171,6 +183,8 @@ func runCase(tc *tcase, salt int, viaHTTP bool) (got [][]string, panicked string
 			panicked = fmt.Sprint(e)
 		}
 	}()
+	mhVariant = (salt / 2) % 3
+	defer func() { mhVariant = 0 }()
 	st := &store{vks: map[string][][]byte{}, mds: map[string][]byte{}}
 	// the metadata store is keyed by the value key alone, shared by all multihashes: the queried multihash's
 	// records are written last so that what the hostile store does to them is what a lookup sees
@@ -422,16 +436,25 @@ func primitives(r *rep.Report, maxLen int, every int) int {
 			n++
 		}
 	}
-	for _, m := range []string{"m1", "m2", "m3"} {
-		guard("SecondMultihash", func() {
-			a, b := dhash.SecondMultihash(mhOf(m)), dhash.SecondMultihash(mhOf(m))
-			dm, err := multihash.Decode(a)
-			if !bytes.Equal(a, b) || bytes.Equal(a, mhOf(m)) || err != nil || dm.Code != multihash.DBL_SHA2_256 || dm.Length != 32 {
-				r.Diverge(rep.Divergence{Key: "second-hash", Detail: m})
-			}
-		})
-		n++
+	for v := 0; v < 3; v++ { // every form of multihash: short, long ones that differ only in their tail, sha2-512
+		mhVariant = v
+		seen := map[string]string{}
+		for _, m := range []string{"m1", "m2", "m3"} {
+			guard("SecondMultihash", func() {
+				a, b := dhash.SecondMultihash(mhOf(m)), dhash.SecondMultihash(mhOf(m))
+				dm, err := multihash.Decode(a)
+				if !bytes.Equal(a, b) || bytes.Equal(a, mhOf(m)) || err != nil || dm.Code != multihash.DBL_SHA2_256 || dm.Length != 32 {
+					r.Diverge(rep.Divergence{Key: "second-hash", Detail: fmt.Sprintf("%s (multihash form %d)", m, v)})
+				}
+				if other, dup := seen[string(a)]; dup {
+					r.Diverge(rep.Divergence{Key: "second-hash", Detail: fmt.Sprintf("%s and %s (multihash form %d) have the same second hash", other, m, v)})
+				}
+				seen[string(a)] = m
+			})
+			n++
+		}
 	}
+	mhVariant = 0
 	return n
 }
 
